@@ -429,19 +429,36 @@ func (c *Crew) toMachines(ctx context.Context, msg interface{}) ([]string, error
 			}
 			return []string{vv}, nil
 		case []string:
-			return vv, nil
+			return uniqueIds(vv), nil
 		case []interface{}:
-			mids := make([]string, len(vv))
-			for i, x := range vv {
+			// Only the strings are machine ids.  (A member
+			// that isn't a string used to address the
+			// machine with the empty id.)
+			mids := make([]string, 0, len(vv))
+			for _, x := range vv {
 				switch vv := x.(type) {
 				case string:
-					mids[i] = vv
+					mids = append(mids, vv)
 				}
 			}
-			return mids, nil
+			return uniqueIds(mids), nil
 		}
 	}
 	return c.allMachines(), nil
+}
+
+// uniqueIds removes repeated ids (keeping the first occurrence): a
+// machine that is named twice still sees the message once.
+func uniqueIds(mids []string) []string {
+	acc := make([]string, 0, len(mids))
+	seen := make(map[string]bool, len(mids))
+	for _, mid := range mids {
+		if !seen[mid] {
+			seen[mid] = true
+			acc = append(acc, mid)
+		}
+	}
+	return acc
 }
 
 // RunMachines presents the message to the machines returned by
